@@ -278,6 +278,8 @@ def digest(alg, data):
         return list(hashlib.blake2b(b, digest_size=28).digest())
     if alg == "crc32":
         return list(zlib.crc32(b).to_bytes(4, "big"))
+    if alg == "sha512":
+        return list(hashlib.sha512(b).digest())
     if alg == "sha3_256":
         return list(hashlib.sha3_256(b).digest())
     raise ToolError("unknown digest " + alg)
